@@ -303,6 +303,7 @@ EXPORT char *_strtok_s_chk(char *restrict dest, rsize_t *restrict dmaxp,
      * need to continue the scan.
      */
     if (ptoken == NULL) {
+        *ptr = dest; /* keep *ptr and *dmaxp consistent: resume at the terminator */
         *dmaxp = dlen;
         return (ptoken);
     }
